@@ -359,6 +359,13 @@ func (ck *checker) monitors(node *nodeEnv, m, p, cookieKind string, r *result, r
 			rep.Violate("C19.P2b.replica-write-redirected-or-error", fmt.Sprintf("P2b/%s/known=%q->%q/status=%d/fly-replay=%q", node.role, r.PreKnown, r.PostKnown, r.Status, r.FlyReplay), detail(nil), replay)
 		}
 	}
+	if node.role == "primary" && r.Arr != nil && r.Arr.W > 0 && r.PreExists && writeMethod(m) && !ptMatch(p) && r.Err == "" {
+		// P3 (issuance): a write that committed on the primary's tracked database is answered with the cookie
+		rep.Eval(1)
+		if !r.HasCookie {
+			rep.Violate("C19.P3.cookie-at-or-after-write", fmt.Sprintf("P3/no-cookie-after-write/%s/%s", m, p), detail(map[string]any{"write_txid": r.Arr.WPos, "response_status": r.Status}), replay)
+		}
+	}
 	if node.role == "primary" && r.Arr != nil && r.Arr.W > 0 && r.HasCookie {
 		rep.Eval(1)
 		if t, ok := parseTXID(r.SetCookie); !ok || t < r.Arr.WPos {
